@@ -140,7 +140,7 @@ structure Contract (K : Kernel X Wt α μ) (cfg : SearchCfg μ θ) (E : Ext X Wt
     (W : List Wt) (x : X) (p0 : P) (is_none : Bool) (reset : X → Wt → Nat → P → C → Bool)
     (veto : Nat → Bool) (mt : MT) (eps : α) : Prop where
   /-- activations are computed with the configured parameters -/
-  choice : ∀ w, (E.category_choice x w p0).1 = K.choice W x w
+  choice : ∀ w, (E.category_choice W x w p0).1 = K.choice W x w
   /-- the binary match test depends on `params` only through the vigilance state -/
   passes : ∀ w p c, (E.match_criterion_bin x w p c (E.operator mt)).1 = cfg.passes (th p) (K.matchv x w)
   /-- `_match_tracking` reads the match value from the cache `match_criterion_bin` returned -/
@@ -160,12 +160,13 @@ variable [Inhabited Wt] [Inhabited C]
 
 /-- one iteration of the translated loop body, in the model's vocabulary -/
 theorem body_spec (K : Kernel X Wt α μ) (cfg : SearchCfg μ θ) (E : Ext X Wt P C α) (th : P → θ)
-    (W : List Wt) (cnt : List Nat) (n : Nat) (p0 : P) (x : X) (is_none : Bool)
+    (W : List Wt) (cnt : List Nat) (n : Nat) (lab : List Nat) (hw : Bool) (p0 : P) (x : X) (is_none : Bool)
     (reset : X → Wt → Nat → P → C → Bool) (veto : Nat → Bool) (mt : MT) (eps : α) (Tc : List C)
     (hC : Contract K cfg E th W x p0 is_none reset veto mt eps) :
     BodySpec cfg (matchAt K W x) veto th (fun p T => (cnt, W, p, T))
-      (fun c => (({ W := W.set c (K.update x W[c]!), cnt := cnt.set c (cnt[c]! + 1), n := n, params := p0 } : Self Wt P), c))
-      (Art.Gen.BaseART.step_fit_loop1_body E n x mt eps p0 (E.operator mt) Tc is_none reset) W.length := by
+      (fun c => (({ W := W.set c (K.update x W[c]!), cnt := cnt.set c (cnt[c]! + 1), n := n, params := p0,
+                    labels := lab, hasW := hw } : Self Wt P), c))
+      (Art.Gen.BaseART.step_fit_loop1_body E n lab hw x mt eps p0 (E.operator mt) Tc is_none reset) W.length := by
   constructor
   intro p T c hL hn
   have hc : c < W.length := hL ▸ nanargmax_lt_length hn
@@ -199,8 +200,8 @@ theorem activations_spec (K : Kernel X Wt α μ) (cfg : SearchCfg μ θ) (E : Ex
     (W : List Wt) (p0 : P) (x : X) (is_none : Bool) (reset : X → Wt → Nat → P → C → Bool) (veto : Nat → Bool)
     (mt : MT) (eps : α) (hC : Contract K cfg E th W x p0 is_none reset veto mt eps) :
     (if ([MT.tilde].contains mt && !is_none) = true then
-        ((List.zipIdx W).map (fun wc => if reset x wc.1 wc.2 p0 E.noneC then E.category_choice x wc.1 p0 else (none, E.noneC))).map Prod.fst
-      else (W.map (fun w => E.category_choice x w p0)).map Prod.fst)
+        ((List.zipIdx W).map (fun wc => if reset x wc.1 wc.2 p0 E.noneC then E.category_choice W x wc.1 p0 else (none, E.noneC))).map Prod.fst
+      else (W.map (fun w => E.category_choice W x w p0)).map Prod.fst)
     = strikeVetoed cfg.tilde veto (activations K W x) := by
   apply List.ext_getElem?
   intro j
@@ -239,7 +240,7 @@ theorem step_fit_refines (K : Kernel X Wt α μ) (cfg : SearchCfg μ θ) (E : Ex
     (hC : Contract K cfg E th self.W x self.params is_none reset veto mt eps) :
     Art.Gen.BaseART.step_fit E self.W.length self x is_none reset mt eps =
       (let r := stepFit K cfg (th self.params) veto ⟨self.W, self.cnt, self.n, []⟩ x
-       (⟨r.1.W, r.1.cnt, r.1.n, self.params⟩, r.2)) := by
+       (⟨r.1.W, r.1.cnt, r.1.n, self.params, self.labels, self.hasW⟩, r.2)) := by
   unfold Art.Gen.BaseART.step_fit stepFit
   by_cases hW : self.W = []
   · simp [hW, applyWinner, hC.newW]
@@ -253,11 +254,11 @@ theorem step_fit_refines (K : Kernel X Wt α μ) (cfg : SearchCfg μ θ) (E : Ex
     have hloop := fun Tc => loop_follows_search cfg (matchAt K self.W x) veto th
       (fun p T => (self.cnt, self.W, p, T))
       (fun c => (({ W := self.W.set c (K.update x self.W[c]!), cnt := self.cnt.set c (self.cnt[c]! + 1),
-                    n := self.n + 1, params := self.params } : Self Wt P), c))
+                    n := self.n + 1, params := self.params, labels := self.labels, hasW := self.hasW } : Self Wt P), c))
       (Art.Gen.BaseART.step_fit_loop1_cond E)
-      (Art.Gen.BaseART.step_fit_loop1_body E (self.n + 1) x mt eps self.params (E.operator mt) Tc is_none reset)
+      (Art.Gen.BaseART.step_fit_loop1_body E (self.n + 1) self.labels self.hasW x mt eps self.params (E.operator mt) Tc is_none reset)
       (by intro p T; rfl) self.W.length
-      (body_spec K cfg E th self.W self.cnt (self.n + 1) self.params x is_none reset veto mt eps Tc hC)
+      (body_spec K cfg E th self.W self.cnt (self.n + 1) self.labels self.hasW self.params x is_none reset veto mt eps Tc hC)
       self.W.length self.params (strikeVetoed cfg.tilde veto (activations K self.W x)) hTlen
     unfold stepSearch
     simp only [hTlen]
@@ -321,8 +322,8 @@ variable {X Wt β : Type} [Field β] [LinearOrder β] [IsStrictOrderedRing β]
 
 /-- externals of an elementary module: the numeric kernel `K`, and for the decisions the generated tables.
 `params` is abstracted to the vigilance value, a cache to the match value it carries. -/
-def scalarExt (K : Kernel X Wt β β) (W : List Wt) (inf : β) : Ext X Wt β β β where
-  category_choice := fun x w _ => (K.choice W x w, K.matchv x w)
+def scalarExt (K : Kernel X Wt β β) (inf : β) : Ext X Wt β β β where
+  category_choice := fun W x w _ => (K.choice W x w, K.matchv x w)
   match_criterion_bin := fun x w rho _ strict =>
     (Gen.BaseART.match_bin (fun a b => if strict then decide (b < a) else decide (b ≤ a)) (K.matchv x w) rho, K.matchv x w)
   update := fun x w _ _ => K.update x w
@@ -334,7 +335,7 @@ def scalarExt (K : Kernel X Wt β β) (W : List Wt) (inf : β) : Ext X Wt β β 
 
 theorem scalar_contract (K : Kernel X Wt β β) (W : List Wt) (inf rho eps : β) (x : X) (mt : MT)
     (is_none : Bool) (veto : Nat → Bool) (hv : is_none = true → ∀ c, veto c = false) :
-    Contract K (scalarCfg mt false (· + eps) (· - eps) inf) (scalarExt K W inf) id W x rho is_none
+    Contract K (scalarCfg mt false (· + eps) (· - eps) inf) (scalarExt K inf) id W x rho is_none
       (fun _ _ c _ _ => !veto c) veto mt eps where
   choice := fun _ => rfl
   passes := fun w p _ => by
@@ -356,11 +357,11 @@ non-inverted vigilance, every state, sample, veto pattern, mode and epsilon. -/
 theorem scalar_step_fit [Inhabited Wt] (K : Kernel X Wt β β) (inf eps : β) (self : Self Wt β) (x : X) (mt : MT)
     (is_none : Bool) (veto : Nat → Bool) (hv : is_none = true → ∀ c, veto c = false) :
     letI : Inhabited β := ⟨0⟩
-    Art.Gen.BaseART.step_fit (scalarExt K self.W inf) self.W.length self x is_none (fun _ _ c _ _ => !veto c) mt eps =
+    Art.Gen.BaseART.step_fit (scalarExt K inf) self.W.length self x is_none (fun _ _ c _ _ => !veto c) mt eps =
       (let r := stepFit K (scalarCfg mt false (· + eps) (· - eps) inf) self.params veto ⟨self.W, self.cnt, self.n, []⟩ x
-       (⟨r.1.W, r.1.cnt, r.1.n, self.params⟩, r.2)) := by
+       (⟨r.1.W, r.1.cnt, r.1.n, self.params, self.labels, self.hasW⟩, r.2)) := by
   letI : Inhabited β := ⟨0⟩
-  exact step_fit_refines K _ (scalarExt K self.W inf) id self x is_none _ veto mt eps
+  exact step_fit_refines K _ (scalarExt K inf) id self x is_none _ veto mt eps
     (scalar_contract K self.W inf self.params eps x mt is_none veto hv)
 
 end Scalar
@@ -379,13 +380,13 @@ private def exSelf : Self (List ℚ) ℚ :=
 /-- the translated code, run on that state: category 1 is vetoed, category 0 resonates and learns -/
 example :
     letI : Inhabited ℚ := ⟨0⟩
-    (Art.Gen.BaseART.step_fit (scalarExt (fuzzyKernel (1/100 : ℚ) 1 2) exSelf.W 1000) 2 exSelf
+    (Art.Gen.BaseART.step_fit (scalarExt (fuzzyKernel (1/100 : ℚ) 1 2) 1000) 2 exSelf
       [3/4, 1/4, 1/4, 3/4] false (fun _ _ c _ _ => !(c == 1)) MT.plus (1/1000)).2 = 0 := by
   decide +kernel
 
 /-- and the contract holds for it (so `scalar_step_fit` applies) -/
 example : Contract (fuzzyKernel (1/100 : ℚ) 1 2) (scalarCfg MT.plus false (· + 1/1000) (· - 1/1000) 1000)
-    (scalarExt (fuzzyKernel (1/100 : ℚ) 1 2) exSelf.W 1000) id exSelf.W [3/4, 1/4, 1/4, 3/4] exSelf.params false
+    (scalarExt (fuzzyKernel (1/100 : ℚ) 1 2) 1000) id exSelf.W [3/4, 1/4, 1/4, 3/4] exSelf.params false
     (fun _ _ c _ _ => !(c == 1)) (fun c => c == 1) MT.plus (1/1000) :=
   scalar_contract _ _ _ _ _ _ _ _ _ (by simp)
 
